@@ -1296,8 +1296,10 @@ def part_b(ck, S, g, exe_rel, exe_fuzz):
         else:
           deferred = True
           verdict = 'inconclusive-base-does-not-compile'
-      custom_read = (kind in ('non_numeric', 'too_many', 'too_few') and isinstance(site.detail, str) and
-                     site.detail in site.ctx.attr and site.ctx.attr[site.detail].facets.get('reading') == 'custom')
+      # (the detail of a value-level violation is "<attr>=<text> (<how>)": the attribute name is its first token)
+      cr_attr = re.split(r'[=: ]', str(info.get('detail') or site.detail or ''))[0]
+      custom_read = (kind in ('non_numeric', 'too_many', 'too_few') and cr_attr in site.ctx.attr and
+                     site.ctx.attr[cr_attr].facets.get('reading') == 'custom')
       if not deferred and custom_read:
         # attributes declared reading=custom have hand-written read semantics by the schema's own definition ("no typed
         # binding is generated"): whether and when their text is parsed is the reader's rule, not a schema rule (e.g.
